@@ -38,7 +38,7 @@ import (
 //
 // Case line (decimal):
 //
-//	E <mode 0 direct|1 server> <hkind 0 nano|1 text|2 json> <threshold> <route 0|1> <method> <reqno>
+//	E <mode 0 direct|1 server> <hkind 0 nano|1 text|2 json, + 10 if addSource, + 20 if colorful> <threshold> <route 0|1> <method> <reqno>
 //	  <nacts> { <tag 0 nop|1 hdr|2 body|3 panic> <a> <b> }*
 //	  <escaped> <wire status> <nbody> { <chunk> }* <nrec> { <tag 1 BEG|2 ERR|3 END|0 ?> <code> <ip ok> <method> <uri owner> <id owner> <pv> }*
 //
